@@ -23,6 +23,11 @@ def apply_case(inp):
     case = reactlib.result_case(R, mode)       # projection: an exception here is a harness error and is reported as one
     if not case["results"]:
         return {"_skip": "no-result"}
+    # the template AS WRITTEN (not the rule object the library derives from it), in the direction of the application
+    t = reactlib.strip(chem.its_abs(tpl, sorted(tpl.nodes())))
+    if inp["invert"]:
+        t = dict(t, tG=t["tH"], tH=t["tG"], oG=t["oH"], oH=t["oG"])
+    case["tpl"] = t
     return case
 
 
